@@ -327,6 +327,19 @@ func TestVerif_C14(t *testing.T) {
 			r.Count("rejected:"+kind, 1)
 		}
 
+		// a malformed signer set (unsorted, duplicated) signed by its own private keys in that very order: whatever
+		// AggregateSign makes of it, verification for a malformed set must fail
+		selfSigned := func(kind string, set []int, detail string) {
+			var own *crypto.Signature
+			var err error
+			if panicked, _, _ := verifkit.Guard(func() { own, err = crypto.AggregateSign(vC14Privs(vec, set), publics, set, seed, msg) }); panicked || err != nil || own == nil {
+				r.Count("malformed_set_refused_by_AggregateSign:"+kind, 1)
+				return
+			}
+			r.Count("malformed_set_signed_by_AggregateSign:"+kind, 1)
+			mustFail(kind+"-signed-in-that-order", *own, publics, set, msg, detail+", signed by AggregateSign for exactly that set", nil)
+		}
+
 		// message
 		if heavy() {
 			m2 := msg
@@ -424,6 +437,7 @@ func TestVerif_C14(t *testing.T) {
 			}
 			set[a], set[b] = set[b], set[a]
 			mustFail("signers-unsorted", good, publics, set, msg, "the signature for the same signers in unsorted order", nil)
+			selfSigned("signers-unsorted", set, "the signers in unsorted order")
 			// unsorted AND out of range: an index beyond the key vector that is not the last entry (and as first entry)
 			for _, at := range []int{0, rng.Intn(k - 1)} {
 				bad := vC14Ints(signers)
@@ -436,6 +450,7 @@ func TestVerif_C14(t *testing.T) {
 					rev[k-1-i] = signers[i]
 				}
 				mustFail("signers-reversed", good, publics, rev, msg, "the signature for the same signers in descending order", nil)
+				selfSigned("signers-reversed", rev, "the signers in descending order")
 			}
 		}
 		// duplicated
@@ -443,8 +458,10 @@ func TestVerif_C14(t *testing.T) {
 			x := rng.Intn(k)
 			set := append(vC14Ints(signers[:x+1]), signers[x:]...) // adjacent duplicate keeps the order non-decreasing
 			mustFail("signer-duplicated-adjacent", good, publics, set, msg, fmt.Sprintf("the signature for the signer set with index %d listed twice", signers[x]), nil)
+			selfSigned("signer-duplicated-adjacent", set, fmt.Sprintf("the signer set with index %d listed twice", signers[x]))
 			set2 := append(vC14Ints(signers), signers[rng.Intn(k)])
 			mustFail("signer-duplicated-appended", good, publics, set2, msg, "the signature for the signer set with one index appended again", nil)
+			selfSigned("signer-duplicated-appended", set2, "the signer set with one index appended again")
 		}
 		// out of range
 		{
